@@ -145,23 +145,58 @@ class _:
     returns = lambda E, args: E.plain_obj(tag='socket')
 
 
-@contract('connection.ClientServerConnection._sendClientHello', props=[], variant='frame')
+def dumpb_client_hello(ip, self, **kwargs):
+    """the client hello is serialized by the generic serializer (C13); here the bytes are opaque"""
+    ip.ctx.lib_used.add('Serializable.dumpb of the client hello: opaque bytes of at most 400 bytes (model in c12_timing; the serializer itself: C13)')
+    t = ip.ctx.fresh('client_hello_bytes', BytesSort)
+    n = ip.ctx.fresh('client_hello_len', z3.IntSort())
+    ip.ctx.assume(z3.And(n >= 0, n <= 400))
+    ops.set_len_term(t, n)
+    ip.state.ghost['client_hello_bytes'] = t
+    return Sym(t, 'bytes')
+
+
+def one_hello_queued(E, old, self, ghost):
+    if isinstance(self.outgoing_messages, PyList):
+        return True         # (modular use in connect(): the queue of the freshly constructed connection is a concrete list; only the frame is used there)
+    last = E.elem(self.outgoing_messages, S.len(self.outgoing_messages) - 1)
+    return ((S.len(self.outgoing_messages) == S.len(old.self.outgoing_messages) + 1)
+            & S.enum_is(last.type, E.member(PTYPE, 'CLIENT_HELLO')) & S.enum_is(last.retry, E.member(RETRY, 'NONE'))
+            & S.bool(S.term(last.payload) == ghost.client_hello_bytes))
+
+
+@contract('connection.ClientServerConnection._sendClientHello', props=['C02', 'C12'])
 class _:
-    """frame of _sendClientHello used by connect(): it queues the hello and sets status/time; it does not touch
-    the timing configuration.  Verified separately under C02 (c02_handshake.py) - here only the frame is used."""
-    trusted = True
+    """the REAL _sendClientHello (it had only an assumed frame before): exactly one CLIENT_HELLO is queued, with RetryMode.NONE,
+    the connection becomes CONNECTING and the hello time is the clock's; nothing else changes - in particular not the timing
+    configuration connect() has just copied, nor the pinned server key (frame, proved)."""
     def setup(E):
-        return dict(self=None)
-    modifies = ['self.status', 'self.time_client_hello_sent', 'self.outgoing_messages', 'self.seq_message', 'self.stats.sent']
-    havoc_kinds = {'self.status': lambda ip, v, name: v, 'self.outgoing_messages': lambda ip, v, name: v,
+        from pyvc import libspec
+        from contracts.common import make_conn
+        self = make_conn(E, CSC, key='none', token=E.int('token'), time_client_hello_sent=E.real('hello_sent'),
+                         connection_callback=None, server_public_key=E.plain_obj(tag='pinned_key'), session_salt=None, version=1,
+                         session_key=libspec.mk_priv(E.ip, E.int('client_kid')), last_latency_update_time=E.int('llut'))
+        E.ghost('conn', self)
+        return dict(self=self)
+    hooks = {'model:serializable.Serializable.dumpb': dumpb_client_hello}
+    uses = ['connection.ConnectionBase._send_type']
+    modifies = ['self.status', 'self.time_client_hello_sent', 'self.outgoing_messages', 'self.seq_message', 'self.stats.sent'] \
+        + ['field:PendingMessage.' + f for f in ('seq', 'type', 'payload', 'callback', 'retry', 'assembled_time')]
+    havoc_kinds = {'self.status': lambda ip, v, name: Obj(v.cls, {'value': Sym(ip.ctx.fresh('status_after_hello', z3.IntSort()), 'int')}),
+                   'self.outgoing_messages': lambda ip, v, name: v,
                    'self.seq_message': 'int', 'self.time_client_hello_sent': 'real', 'self.stats.sent': 'int'}
+    ensures = {
+        'one-client-hello-queued-sent-once': lambda E, old, self, ghost: one_hello_queued(E, old, self, ghost),
+        'status-connecting': lambda E, self: S.enum_is(self.status, E.member(STATUS, 'CONNECTING')),
+    }
 
 
 @contract('client.UdpClient.connect', props=['C12'])
 class _:
     def setup(E):
+        declare_pending_message(E)      # (the frame of _sendClientHello names the fields of the message it queues)
         return dict(self=make_client(E, False), addr=('127.0.0.1', 1474), callback=None)
-    uses = ['client.UdpClient._make_socket', 'connection.ClientServerConnection._sendClientHello@frame']
+    uses = ['client.UdpClient._make_socket', 'connection.ClientServerConnection._sendClientHello']
     ensures = {
         # settings made before connect take effect on the new connection
         'keep-alive-interval-takes-effect': lambda self: S.eq(self.conn.send_keep_alive_interval, self.keep_alive_interval),
@@ -202,10 +237,11 @@ class _:
     """the key the client was configured with is the key the new connection verifies the server hello against (C02: the client
     keeps insisting on its configured server key), and connecting does not change the configuration"""
     def setup(E):
+        declare_pending_message(E)
         c = make_configured_client(E, False)
         c.attrs['sock'] = None
         return dict(self=c, addr=('127.0.0.1', 1474), callback=None)
-    uses = ['client.UdpClient._make_socket', 'connection.ClientServerConnection._sendClientHello@frame']
+    uses = ['client.UdpClient._make_socket', 'connection.ClientServerConnection._sendClientHello']
     ensures = {
         'new-connection-verifies-against-the-configured-key': lambda self, ghost: self.conn.server_public_key is ghost.pinned_key,
         'configuration-kept': lambda old, self, ghost: config_kept(old, self, ghost),
